@@ -37,6 +37,22 @@ class Ctx:
             if e["variants"] and all(v["nfields"] == 0 for v in e["variants"]):
                 self.enum_max[e["path"]] = (min(v["discr"] for v in e["variants"]), max(v["discr"] for v in e["variants"]))
         self._const_ret = {}
+        self.sizes = {"u8": 1, "i8": 1, "bool": 1, "u16": 2, "i16": 2, "u32": 4, "i32": 4, "f32": 4, "char": 4, "u64": 8, "i64": 8, "f64": 8, "usize": 8, "isize": 8}
+        for s in F.items["structs"] + F.items["enums"]:
+            if isinstance(s.get("size"), int):
+                self.sizes[s["path"]] = s["size"]
+
+    def elem_size(self, ty):
+        """size in bytes of the element type of `&[T]`, `[T; N]`, `Vec<T>` or of T itself, when known"""
+        ty = (ty or "").strip()
+        while ty.startswith("&"):
+            ty = ty[1:].lstrip()
+            if ty.startswith("mut "):
+                ty = ty[4:]
+        m = re.match(r"^\[(.+?)(; \d+)?\]$", ty) or re.match(r"^(?:std|alloc)::vec::Vec<(.+?)(, .*)?>$", ty)
+        if m:
+            ty = m.group(1)
+        return self.sizes.get(ty)
 
     def const_return(self, path):
         """range of a local fn whose every assignment to the return place is an integer constant"""
@@ -137,8 +153,21 @@ def rng(ctx, mir, o, depth=0):
         c = d.get("resolved") or d.get("fn") or ""
         if re.search(r"NonZero<\w+>::get$|NonZeroU\d+::get$|num::nonzero::NonZero::<T>::get$", c) or c.endswith("NonZero::<T>::get"):
             return (1, tr[1]) if tr else None
+        if c.endswith("::len") and d.get("args"):
+            # a live slice / Vec of n elements occupies n * size_of::<T>() <= isize::MAX bytes
+            a0 = d["args"][0]
+            aty = a0.get("ty") or local_ty(mir, (a0.get("p") or {}).get("l"))
+            es = ctx.elem_size(aty)
+            if es:
+                return (0, (2**63 - 1) // es)
+            return (0, 2**63 - 1)
         if c.endswith("::len") or c.endswith("::count") or c.endswith("unset_bits"):
             return (0, 2**63 - 1)
+        if c.endswith("convert::From::from") or re.search(r"<impl std::convert::From<\w+> for \w+>::from$", c):
+            # lossless integer widening: the argument's range
+            a = rng(ctx, mir, d["args"][0], depth + 1) if d.get("args") else None
+            if a is not None and tr is not None and a[0] >= tr[0] and a[1] <= tr[1]:
+                return a
         if reach.owner_of(c) in ctx.G.local:
             cr = ctx.const_return(reach.owner_of(c))
             if cr:
@@ -502,7 +531,7 @@ def discharge_R(ctx, site):
         fn = t.get("fn") or ""
         arg = t["args"][1] if fn.endswith("from_elem") and len(t["args"]) == 2 else (t["args"][-1] if t.get("args") else None)
         elem = (t.get("gargs") or ["u8"])[0]
-        size = {"u8": 1, "i8": 1, "bool": 1, "u16": 2, "i16": 2, "u32": 4, "i32": 4, "f32": 4, "char": 4, "u64": 8, "i64": 8, "f64": 8, "usize": 8}.get(elem)
+        size = ctx.sizes.get(elem)
         if arg is not None and size:
             r = rng(ctx, site["mir"], arg)
             if r is not None and r[0] >= 0 and r[1] * size <= 2**63 - 1:
